@@ -51,6 +51,54 @@ def f2_sqrt(p, a):
     return f2_mul(p, b, x0)
 
 
+_SYLOW3 = {}
+
+
+def f2_cbrt(p, a, rng):
+    """A cube root of a in Fp[i]/(i^2+1) or None (input generation only).  q - 1 = 3^s t: a^(1/3 mod t) is right
+    up to an element of the 3-Sylow subgroup (3^s elements, searched)."""
+    q1 = p * p - 1
+    s, t = 0, q1
+    while t % 3 == 0:
+        s, t = s + 1, t // 3
+    if a == (0, 0):
+        return (0, 0)
+    if f2_pow(p, a, q1 // 3) != (1, 0):
+        return None
+    if p not in _SYLOW3:
+        while True:
+            g = f2_pow(p, (rng.randrange(p), rng.randrange(1, p)), t)
+            if f2_pow(p, g, 3 ** (s - 1)) != (1, 0):
+                break
+        els, cur = [], (1, 0)
+        for _ in range(3 ** s):
+            els.append(cur)
+            cur = f2_mul(p, cur, g)
+        _SYLOW3[p] = els
+    e = pow(3, -1, t)
+    c0 = f2_pow(p, a, e)
+    for d in _SYLOW3[p]:
+        x = f2_mul(p, c0, d)
+        if f2_mul(p, f2_mul(p, x, x), x) == a:
+            return x
+    return None
+
+
+def real_y_twist_points(p, rng, count, b2=(4, 4)):
+    """Points (x, y) of y^2 = x^3 + b2 over Fp2 whose y is real or purely imaginary (input generation only)."""
+    out = []
+    for _ in range(200 * count):
+        yr = rng.randrange(1, p)
+        y = (yr, 0) if rng.random() < 0.5 else (0, yr)
+        y2 = f2_mul(p, y, y)
+        x = f2_cbrt(p, ((y2[0] - b2[0]) % p, (y2[1] - b2[1]) % p), rng)
+        if x is not None:
+            out.append((x, y))
+            if len(out) >= count:
+                break
+    return out
+
+
 def coeffs(x):
     if hasattr(x, "coeffs"):
         return tuple(int(c) if isinstance(c, int) else int(c.n) for c in x.coeffs)
